@@ -181,7 +181,7 @@ impl SharedBlockstore {
 #[verifier::external_body] pub struct VerifBlock { _p: () }    // crate::types::Block, opaque here
 impl SharedBlockstore {
     #[verifier::external_body]
-    pub fn read(&self) -> (r: &BlockstoreRead) { unimplemented!() }
+    pub fn read(&self) -> (r: &BlockstoreRead) ensures *r == self.spec_read() { unimplemented!() }
 }
 impl BlockstoreRead {
     #[verifier::external_body]
@@ -195,11 +195,19 @@ impl BlockstoreRead {
     pub fn get_block(&self, block_id: &BlockId) -> (r: Option<&VerifBlock>)
         ensures r is Some <==> self.holds_block(*block_id)
     { unimplemented!() }
+    // the last slice of a block this node holds
+    pub uninterp spec fn last_of(&self, id: BlockId) -> SliceIndex;
+    // (availability for a held block - the four `holds_block ==> ...` clauses below - is PROVED on the real BlockstoreImpl bodies in unit
+    //  blockdata, clause a_held_block_is_answered_with_data, from the store invariant every mutator keeps)
     #[verifier::external_body]
-    pub fn get_last_slice_index(&self, block_id: &BlockId) -> (r: Option<SliceIndex>) { unimplemented!() }
+    pub fn get_last_slice_index(&self, block_id: &BlockId) -> (r: Option<SliceIndex>)
+        ensures self.holds_block(*block_id) ==> r == Some(self.last_of(*block_id))
+    { unimplemented!() }
     #[verifier::external_body]
     pub fn get_slice_root(&self, block_id: &BlockId, slice_index: SliceIndex) -> (r: Option<SliceRoot>)
-        ensures r is Some ==> self.has_slice(*block_id, slice_index)
+        ensures
+            r is Some ==> self.has_slice(*block_id, slice_index),
+            (self.holds_block(*block_id) && slice_index.0 <= self.last_of(*block_id).0) ==> r is Some,
     { unimplemented!() }
     // MerkleTree::create_proof asserts that the index lies within the tree: safe only for a slice the store holds
     #[verifier::external_body]
@@ -207,11 +215,14 @@ impl BlockstoreRead {
         requires
             // [C14.proof_requested_only_for_a_held_slice C10.proof_requested_only_for_a_held_slice]
             self.has_slice(*block_id, slice_index),
+        ensures self.holds_block(*block_id) ==> r is Some,
     { unimplemented!() }
     #[verifier::external_body]
     pub fn get_shred(&self, block_id: &BlockId, slice_index: SliceIndex, shred_index: ShredIndex) -> (r: Option<&ValidatedShred>)
-        ensures r matches Some(v) ==> v.spec_shred().spec_payload().header.slot == block_id.0
-            && v.spec_shred().spec_payload().header.slice_index == slice_index && v.spec_shred().spec_payload().shred_index == shred_index
+        ensures
+            r matches Some(v) ==> v.spec_shred().spec_payload().header.slot == block_id.0
+                && v.spec_shred().spec_payload().header.slice_index == slice_index && v.spec_shred().spec_payload().shred_index == shred_index,
+            (self.holds_block(*block_id) && slice_index.0 <= self.last_of(*block_id).0) ==> r is Some,
     { unimplemented!() }
 }
 impl Clone for ValidatedShred {
@@ -582,6 +593,13 @@ ret r
 elide-async
 rewrite*[R8] `drop(blockstore);` => ``
 ensures
+        // [C14.a_held_block_is_answered_with_data] "a node answers every request about a block it holds with data": for a block it has
+        // completely, the last-slice root, every slice root up to the last slice and every shred of those slices
+        (match request.req_type {
+            RepairRequestType::LastSliceRoot(b) => self.blockstore.spec_read().holds_block(b),
+            RepairRequestType::SliceRoot(b, sl) => self.blockstore.spec_read().holds_block(b) && sl.0 <= self.blockstore.spec_read().last_of(b).0,
+            RepairRequestType::Shred(b, sl, i) => self.blockstore.spec_read().holds_block(b) && sl.0 <= self.blockstore.spec_read().last_of(b).0,
+        }) ==> r is Some,
         // [C14.answer_quotes_the_request_and_matches_its_kind]
         r matches Some(resp) ==> resp.req() == request.req_type && (match request.req_type {
             RepairRequestType::LastSliceRoot(_) => resp is LastSliceRoot,
@@ -625,6 +643,12 @@ ensures
             && final(self).network.sent().last().0.req() == request.req_type
             && final(self).network.sent().last().1 == old(self).epoch_info.spec_view().spec_validators()[request.sender.0 as int].repair_requester_address
             && final(self).network.sent().drop_last() == old(self).network.sent()),
+        // [C14.a_held_block_is_answered_with_data] ... and for a block the node holds the answer is the data, not a negative acknowledgement
+        (request.sender.0 < old(self).epoch_info.spec_view().spec_validators().len() && (match request.req_type {
+            RepairRequestType::LastSliceRoot(b) => old(self).blockstore.spec_read().holds_block(b),
+            RepairRequestType::SliceRoot(b, sl) => old(self).blockstore.spec_read().holds_block(b) && sl.0 <= old(self).blockstore.spec_read().last_of(b).0,
+            RepairRequestType::Shred(b, sl, i) => old(self).blockstore.spec_read().holds_block(b) && sl.0 <= old(self).blockstore.spec_read().last_of(b).0,
+        })) ==> !(final(self).network.sent().last().0 is Nack),
 closure 0
         ret o: RepairResponse
         ensures o == RepairResponse::Nack(request.req_type)
